@@ -51,11 +51,21 @@ type byteHist struct {
 	unit        string
 }
 
-// begin makes b the current input and installs the case-with-context provider.
-func (h *byteHist) begin(w *mc.W, b []byte, unit string) {
+// begin makes b the current input and installs the case-with-context provider. It returns the input
+// in the buffer of the worker process, overwritten in place from input to input (as a caller with a read
+// buffer would hand it over): consecutive inputs of one length share address and length, so a decoder
+// that remembers a caller's buffer by identity shows. (Very long inputs are handed over as they are.)
+func (h *byteHist) begin(w *mc.W, b []byte, unit string) []byte {
+	if len(b) <= cap(histBuf) {
+		histBuf = append(histBuf[:0], b...)
+		b = histBuf
+	}
 	h.cur, h.unit = b, unit
 	w.SetAltCase(h.alt)
+	return b
 }
+
+var histBuf = make([]byte, 0, 1<<17)
 
 // end files the current input (ok: the specification accepts it).
 func (h *byteHist) end(ok bool) {
